@@ -502,3 +502,13 @@ Fixpoint rrun_slots (r : rst) (ops : list sop) : list rout :=
           end
       end
   end.
+
+(** Histories *)
+Fixpoint rrun (r : rst) (ops : list op) : rres rst :=
+  match ops with
+  | [] => ROk r
+  | o :: t => match rstep r o with
+              | RFault f => RFault f
+              | ROk (r1, _, _) => rrun r1 t
+              end
+  end.
